@@ -41,7 +41,7 @@ def run(rep, work, tier, seed, only=None):
     outdir, data = run_driver(work, 'valid', tier, seed)
     bytag = {}
     for r in data:
-        desc = {'decoder': r['decoder'], 'cls': r['cls'], 'size': r['size'], 'deformation': r['deformation'], 'direction': r['direction'], 'p': r['p']}
+        desc = {'decoder': r['decoder'], 'options': r.get('options', {}), 'cls': r['cls'], 'size': r['size'], 'deformation': r['deformation'], 'direction': r['direction'], 'p': r['p']}
         rep.case(json.dumps(desc, sort_keys=True), r.get('n_decodes', 0) >= 10,
                  sample=dict(desc, decodes=r.get('n_decodes'), kinds=r.get('kinds')) if len(rep.samples) < 4 else None)
         rep.evaluations += max(0, r.get('n_decodes', 0) - 1)
